@@ -163,6 +163,25 @@ def run(rep, ctx):
             lines_want = sorted(set(line_of(b1, s) for s in want))
             if r1['lines'][n] != 'PANIC' and r1['lines'][n] != lines_want:
                 S.append((i0, i1, st, '%s reports lines %s after the re-layout; the flagged tokens are on lines %s' % (n, r1['lines'][n], lines_want), n))
+    # the same at the level of a run over a directory: the lines analyze_dir records for a re-laid-out file are the lines of
+    # the moved tokens too (they have just been compared with the lines analyze_for_* reports for that text)
+    from checks import lines_common
+    bad_pairs = set(i1 for _, i1, *_ in S)
+    cand = [(i0, i1, st) for i0, i1, st, sm, em in pairs
+            if res[i0]['parse'] == 'ok' and res[i1]['parse'] == 'ok' and i1 not in bad_pairs and len(progs[i1]['src']) < 5000
+            and res[i1].get('hang') is None and all(res[i1]['lines'][n] != 'PANIC' for n in DETS)]
+    lead = [c for c in cand if progs[c[1]]['src'][:1] in ('\n', '\r', ' ', '\t')]
+    rest = [c for c in cand if c not in lead]
+    rng.shuffle(rest)
+    chosen = lead[:60] + rest[:40]
+    if chosen:
+        ncmp, dbad = lines_common.dir_compare(ctx, [(progs[i1]['src'], res[i1]['lines']) for i0, i1, st in chosen], 'c17dir')
+        rep.coverage['directory_run'] = {'files': len(chosen), 'beginning_with_white_space': len(lead[:60]), 'comparisons': ncmp, 'mismatches': len(dbad)}
+        for k, n, have, want in dbad:
+            if k is None:
+                continue
+            i0, i1, st = chosen[k]
+            S.append((i0, i1, st, 'in a run over a directory %s records lines %s for the re-laid-out file; the flagged tokens are on lines %s' % (n, have, want), n))
     rep.coverage['evaluations'] = n_pairs * len(DETS)
     rep.coverage['distinct_nontrivial'] = len(n_nontrivial)
     rep.coverage['pairs'] = n_pairs
@@ -230,4 +249,11 @@ def replay(obj):
     print('re-layout:\n' + obj['input'][:1500])
     for n in ([d] if d else DETS):
         print(n, 'original:', r0['det'].get(n), r0['lines'].get(n), ' re-layout:', r1['det'].get(n), r1['lines'].get(n))
-    return 0
+    rc = 0
+    if r1['parse'] == 'ok' and all(r1['lines'].get(n) != 'PANIC' for n in DETS):
+        from checks import lines_common
+        ncmp, dbad = lines_common.dir_compare(ctx, [(obj['input'], r1['lines'])], 'c17replay')
+        for k, n, have, want in dbad:
+            print('run over a directory:', n, 'records lines', have, 'for the re-laid-out file; analyze_for_* reports', want)
+            rc = 1
+    return rc
